@@ -1194,8 +1194,19 @@ pub fn respell_family(seed: u64, thorough: bool) -> Vec<Job> {
     }
     // (b) SEAM significands at every 5th exponent (rotated by seed)
     let ws = std::sync::Arc::new(seam_significands());
+    // every 5th exponent (rotated by seed) plus every exponent at which an algorithm switches
+    let mut qs: Vec<i64> = Vec::new();
     let mut q = -365 + (seed % 5) as i64;
     while q <= 330 {
+        qs.push(q);
+        q += 5;
+    }
+    for c in [-343i64, -342, -325, -308, -66, -65, -46, -28, -27, -23, -22, -18, -17, -11, -10, -5, -4, 0, 10, 11, 17, 18, 22, 23, 24, 37, 38, 39, 55, 56, 308, 309] {
+        qs.push(c);
+    }
+    qs.sort();
+    qs.dedup();
+    for q in qs {
         let ws = ws.clone();
         jobs.push(Box::new(move |emit: &mut Emit| {
             for &w in ws.iter() {
@@ -1210,7 +1221,6 @@ pub fn respell_family(seed: u64, thorough: bool) -> Vec<Job> {
                 }
             }
         }));
-        q += 5;
     }
     // (c) long bases: midpoints and exact values of the named pairs, both formats
     for f in [F64, F32] {
